@@ -99,6 +99,25 @@ CLAIMED = {
             "constructing path, literal operations) or a named whitelist entry; (E4) check_key_type precedes verification / CEK recovery; (E5) "
             "explicit raises are allowed classes, stubs are shown unreachable. Not decided: states no rule models.",
             "throws table jv/spec/throws.py (probed); well-formed keys and registries; mypy receiver types", "5/C16"),
+    "C09": ("static analysis: def-use provenance of the parsed payload to the verified transport object, CFG must-pass of the object-only "
+            "gate, effect analysis of the header parameter, structural comparison of the transport selection",
+            "Decides five structural clauses: json.loads in jwt.decode is fed only from .payload / .plaintext of the object returned by "
+            "jws.deserialize_compact / jwe.decrypt_compact (integrity first, see C01/C02); every return of Token(header, claims) is dominated by "
+            "isinstance(claims, dict) with InvalidPayloadError on the false edge; parse errors map to InvalidPayloadError; encode never stores "
+            "into / forwards the caller's header (a fresh {'typ': 'JWT', **header} is sent, explicit typ wins); encode and decode select the "
+            "transport with the same test; exp/iat/nbf datetimes become calendar.timegm(utctimetuple()). Not decided: JSON value fidelity of "
+            "claims (unicode, floats) - value level.",
+            "C01/C02 verdicts for the transports", "5/C09"),
+    "C10": ("static analysis: linear normal form of the time-window comparisons, CFG dominance of type guards, path-condition truth table of "
+            "check_value (128 assignments), effect analysis of the claims parameter",
+            "The decision logic touches claim values only through comparisons, membership and isinstance - a finite table, decided exactly: "
+            "validate_exp raises ExpiredTokenError iff value - now + leeway < 0 (<= also accepted: the statement leaves that second open), "
+            "validate_nbf / validate_iat raise InvalidTokenError iff value - now - leeway > 0; the numeric guard raising InvalidClaimError "
+            "dominates; MissingClaimError iff an essential key has claims.get(key) is None; check_value raises InvalidClaimError iff option "
+            "and ((not allow_blank and value == '') or value != option.value or value not in option.values) over all 128 atom assignments; "
+            "dispatch visits every claim; aud intersection; validate and the validators never store into the claims; now defaults to "
+            "int(time.time()).",
+            "Python comparison semantics on claim values", "5/C10"),
 }
 
 NOT_YET = "check not built yet (build in progress; see DESIGN.md section 5 for the planned rules)"
